@@ -156,6 +156,9 @@ func cmdRun(args []string) int {
 	}
 
 	replayDir := filepath.Join(verifDir(), "replays")
+	if d := os.Getenv("VERIF_REPLAYS"); d != "" {
+		replayDir = d // (experiments running side by side keep their replay files apart)
+	}
 	os.MkdirAll(replayDir, 0755)
 	knownPath := filepath.Join(verifDir(), "known_findings.json")
 	results := make([]*workerResult, cfg.Workers)
